@@ -475,7 +475,7 @@ TRANSPARENT_CALLS = {
     "clone": 0, "shallow_clone": 0, "deref": 0, "deref_mut": 0, "as_ref": 0, "as_mut": 0,
     "borrow": 0, "borrow_mut": 0, "into": 0, "from": 0, "to_owned": 0, "as_deref": 0,
     "into_iter": 0, "iter": 0, "copied": 0, "cloned": 0, "as_slice": 0, "unwrap": 0,
-    "expect": 0, "make_mut": 0, "get_mut": 0, "as_str": 0, "to_string": 0,
+    "expect": 0, "make_mut": 0, "get_mut": 0, "as_str": 0, "to_string": 0, "map_err": 0,
 }
 
 
@@ -595,6 +595,11 @@ class Terms:
             return ("icall", tuple(self.operand(a, depth, stack) for a in t["args"]))
         name = f.get("name")
         args = t["args"]
+        if name == "branch" and f.get("trait") == "std::ops::Try" and len(args) == 1:
+            # `expr?`: the Continue payload is the Ok/Some payload of expr
+            return ("try", self.operand(args[0], depth, stack))
+        if name == "from_residual" and len(args) == 1:
+            return ("residual", self.operand(args[0], depth, stack))
         if name in self.transparent and len(args) > self.transparent[name] and len(args) <= 2:
             # pass-through wrappers (clone, deref, as_ref, ...)
             if name in ("from", "into") and not _is_identityish(f):
@@ -648,6 +653,13 @@ def project(base, proj):
 
 
 def project1(t, p):
+    if t[0] == "try":
+        if p == "@Continue":
+            return ("tryc", t[1])
+        if p == "@Break":
+            return ("trybreak", t[1])
+    if t[0] == "tryc" and p == ".0":
+        return t[1]
     if p.startswith("@"):
         # downcast: keep as marker unless the term is an aggregate of that variant
         if t[0] == "adt" and t[2] == p[1:]:
